@@ -137,7 +137,7 @@ func Mutate(t *rapid.T, s *rt.Spec) string {
 		return l
 	}
 	for try := 0; try < 20; try++ {
-		switch uniform(t, "mutation", 9) {
+		switch uniform(t, "mutation", 11) {
 		case 0: // drop a Params value
 			if len(s.Params) == 0 {
 				continue
@@ -246,6 +246,50 @@ func Mutate(t *rapid.T, s *rt.Spec) string {
 				// keep FallbackWith arity consistent: the renderer derives it from Out
 			}
 			return "unused-output"
+		case 9, 10: // a cycle among new tasks that feeds no Results target and no Invoke task
+			n := 2 + uniform(t, "cyclelen", 2)
+			var xs []rt.TypeRef
+			for k := 0; k < n; k++ {
+				x, ok := pool.fresh(t, false)
+				if !ok {
+					break
+				}
+				xs = append(xs, x)
+			}
+			if len(xs) < n {
+				continue
+			}
+			viaPred := uniform(t, "cyclepred", 3) == 0
+			hang := uniform(t, "cyclehang", 3) == 0
+			var nts []rt.TaskSpec
+			for k := 0; k < n; k++ {
+				nt := rt.TaskSpec{Unit: s.Units, In: []rt.TypeRef{xs[k]}, Out: []rt.TypeRef{xs[(k+1)%n]}, Sp: "lit"}
+				s.Units++
+				if k == 0 && viaPred {
+					// the edge into the first task goes through its predicate only
+					nt.In = nil
+					nt.Pred = &rt.PredSpec{Unit: s.Units, In: []rt.TypeRef{xs[0]}, Sp: "lit"}
+					s.Units++
+				}
+				if k == 1 && hang {
+					// the cycle hangs below an existing value
+					if ts := allTypes(); len(ts) > 0 {
+						nt.In = append(nt.In, ts[uniform(t, "hangon", len(ts))])
+					}
+				}
+				nts = append(nts, nt)
+			}
+			for _, nt := range nts {
+				pos := uniform(t, "pos", len(s.Tasks)+1)
+				s.Tasks = append(s.Tasks[:pos:pos], append([]rt.TaskSpec{nt}, s.Tasks[pos:]...)...)
+			}
+			switch {
+			case viaPred:
+				return "detached-cycle-pred"
+			case hang:
+				return "detached-cycle-hanging"
+			}
+			return "detached-cycle"
 		case 8: // strip Invoke(true)
 			var c []int
 			for i, ts := range s.Tasks {
